@@ -238,7 +238,7 @@ impl ListenerSession {
             &&& final(self).pending_link_flows@ == old(self).pending_link_flows@.insert(h, before.push(LinkFlow { handle: flow.handle->Some_0, rest: flow.rest }))   // [C15.listener.flow-unattached-buffered] exactly this flow is appended under exactly its own handle (arrival order kept), nothing else is touched [C11.listener.flow-kept-for-its-handle]
         }),
         r is Err ==> final(self).pending_link_flows@ == old(self).pending_link_flows@,
-        flow.handle is Some && old(self).pending_link_flows@.contains_key(flow.handle->Some_0.0) ==> !(r is Err && r->Err_0 is UnattachedHandle),   // [C15.listener.unattached-not-fatal] [C18.commit.replay-to-a-detached-link-does-not-abort-the-commit] a flow pipelined behind an attach that the application has not accepted yet never ends the listener session
+        flow.handle is Some && old(self).pending_link_flows@.contains_key(flow.handle->Some_0.0) ==> !(r is Err && r->Err_0 is UnattachedHandle),   // [C15.listener.unattached-not-fatal] a flow pipelined behind an attach that the application has not accepted yet never ends the listener session
         flow.handle is Some && !old(self).pending_link_flows@.contains_key(flow.handle->Some_0.0) ==> final(self).pending_link_flows@ == old(self).pending_link_flows@,   // [C15.listener.flow-for-unknown-handle-refused] a flow naming a handle that is neither attached nor waiting to be accepted is not retained (10 000 such flows used to be kept for the life of the session, 2^32 handles to choose from): it is answered as the protocol says -- whatever Session::on_incoming_flow made of it (unattached-handle) is passed on
         flow.handle is Some && !old(self).pending_link_flows@.contains_key(flow.handle->Some_0.0) && !old(self).session.link_by_input_handle@.contains_key(flow.handle->Some_0.0) ==> r is Err,   // [C15.listener.flow-for-unknown-handle-is-an-error] ... and that is an error visible to the application (the session ends with unattached-handle), as on the client side
         r is Ok ==> !final(self).session.releasable@,           // [C07.listener.flow-reopening-window-drains] a flow that re-opens the peer's incoming window releases the transfers the session had parked -- also when its LINK part names a handle that is not accepted yet: swallowing that error must not swallow the drain (the parked transfers would wait for some unrelated later frame, possibly for ever)
@@ -250,7 +250,7 @@ impl ListenerSession {
     ensures
         final(self).pending_link_flows@ == old(self).pending_link_flows@,
         final(self).session.counted@ == old(self).session.counted@ + 1,      // [C07.listener.every-transfer-frame-counted] the session state the endpoint reports (next-incoming-id, its windows) reflects EVERY transfer frame received: a frame for a handle whose attach still waits to be accepted -- or for no link at all -- is counted like any other before it is set aside; the peer counts it as sent
-        r is Err ==> !(r->Err_0 is UnattachedHandle),            // [C15.listener.unattached-not-fatal] a transfer for a handle that is not attached is ignored (nothing is delivered, nothing answered), the session goes on
+        r is Err ==> !(r->Err_0 is UnattachedHandle),            // [C15.listener.unattached-not-fatal] [C18.commit.replay-to-a-detached-link-does-not-abort-the-commit] (a commit replays the buffered posts through this function: a post for a link that was closed meanwhile is dropped, the rest of the transaction is still delivered and the commit succeeds) a transfer for a handle that is not attached is ignored (nothing is delivered, nothing answered), the session goes on
 //@@ end
 //@@ fn file=fe2o3-amqp/src/acceptor/session.rs impl=`impl endpoint::Session for ListenerSession` name=on_incoming_detach
 //@@ ret Result<(), SessionInnerError>
